@@ -239,8 +239,6 @@ structure Operand where
   lowPrec : Bool
   /-- has outer attributes -/
   hasAttrs : Bool
-  /-- `!classify::expr_requires_semi_to_be_stmt` (`if`, `match`, blocks, loops, a macro call with braces) -/
-  blockLike : Bool
   deriving DecidableEq, Repr
 
 /-- the top-level pieces of the macro's token stream -/
@@ -270,14 +268,13 @@ structure TryOut where
   operand : Operand
   deriving DecidableEq, Repr
 
-def needsParens (atStmtStart : Bool) (e : Operand) : Bool :=
-  e.lowPrec || e.hasAttrs || (atStmtStart && e.blockLike)
+def needsParens (e : Operand) : Bool := e.lowPrec || e.hasAttrs
 
-/-- `use_try_shorthand` && `convert_try_mac(mac, context, at_stmt_start)` -/
-def convertTry (opt : Bool) (path : Str) (args : List ArgTok) (atStmtStart : Bool) : Option TryOut :=
+/-- `use_try_shorthand` && `convert_try_mac(mac, context)` -/
+def convertTry (opt : Bool) (path : Str) (args : List ArgTok) : Option TryOut :=
   if opt && tryPath path then
     match parseOnlyExpr args with
-    | some e => some ⟨needsParens atStmtStart e, e⟩
+    | some e => some ⟨needsParens e, e⟩
     | none => none
   else none
 
@@ -305,8 +302,8 @@ def argToks (args : List ArgTok) : List Tok := args.flatMap ArgTok.toks
 
 /-- what `?` applies to in the printed form: the whole operand when it is parenthesised or stands as a postfix operand
 on its own; otherwise `?` would take a part of it (`none`) -/
-def TryOut.scope (atStmtStart : Bool) (o : TryOut) : Option (List Tok) :=
-  if o.parens || !needsParens atStmtStart o.operand then some o.operand.toks else none
+def TryOut.scope (o : TryOut) : Option (List Tok) :=
+  if o.parens || !needsParens o.operand then some o.operand.toks else none
 
 /-! ## §3 condense_wildcard_suffixes -/
 
@@ -729,33 +726,41 @@ def isHexU (c : Char) : Bool :=
 /-- `eat_float_exponent` -/
 def eatExponent (r : Str) : Str :=
   match r with
-  | '+' :: u => u.dropWhile isDecU
-  | '-' :: u => u.dropWhile isDecU
-  | _ => r.dropWhile isDecU
+  | [] => []
+  | a :: u => if a == '+' || a == '-' then u.dropWhile isDecU else r.dropWhile isDecU
 
-/-- the `match self.first()` at the end of `Cursor::number`: what is left behind the fraction and the exponent -/
+/-- behind the digits of the fraction: an exponent, if there is one -/
+def afterFraction (r2 : Str) : Str :=
+  match r2 with
+  | [] => []
+  | y :: r3 => if y == 'e' || y == 'E' then eatExponent r3 else r2
+
+/-- the `match self.first()` at the end of `Cursor::number`: what is left behind the fraction and the exponent.
+`'.' if self.second() != '.' && !is_id_start(self.second())` takes the point; digits and an exponent may follow it. -/
 def afterDigits (r : Str) : Str :=
   match r with
-  | '.' :: r' =>
-    match r' with
-    | [] => []
-    | c :: _ =>
-      if c == '.' || isIdStartA c then r
-      else if '0' ≤ c && c ≤ '9' then
-        match r'.dropWhile isDecU with
-        | 'e' :: r3 => eatExponent r3
-        | 'E' :: r3 => eatExponent r3
-        | r2 => r2
-      else r'
-  | 'e' :: r' => eatExponent r'
-  | 'E' :: r' => eatExponent r'
-  | _ => r
+  | [] => []
+  | a :: r' =>
+    if a == '.' then
+      match r' with
+      | [] => []
+      | c :: _ =>
+        if c == '.' || isIdStartA c then r
+        else if '0' ≤ c && c ≤ '9' then afterFraction (r'.dropWhile isDecU)
+        else r'
+    else if a == 'e' || a == 'E' then eatExponent r'
+    else r
 
 /-- `eat_literal_suffix` (ASCII) -/
 def eatSuffix (r : Str) : Str :=
   match r with
   | c :: u => if isIdStartA c then u.dropWhile isIdContinueA else r
   | [] => []
+
+/-- a base prefix: the digits of that base, and only if there is a digit the rest of `number` -/
+def afterBase (isDigitU : Char → Bool) (u : Str) : Str :=
+  if (u.takeWhile isDigitU).any (fun c => c != '_') then eatSuffix (afterDigits (u.dropWhile isDigitU))
+  else eatSuffix (u.dropWhile isDigitU)
 
 /-- `rustc_lexer::Cursor::number` + `eat_literal_suffix` on a text that starts with a digit: what is left behind the
 numeric literal token (ASCII; `0b` / `0o` / `0x` with their digit classes) -/
@@ -765,17 +770,13 @@ def lexNumberRest (s : Str) : Str :=
   | d :: t =>
     if d == '0' then
       match t with
-      | 'b' :: u => if (u.takeWhile isDecU).any (fun c => c != '_') then eatSuffix (afterDigits (u.dropWhile isDecU))
-                    else eatSuffix (u.dropWhile isDecU)
-      | 'o' :: u => if (u.takeWhile isDecU).any (fun c => c != '_') then eatSuffix (afterDigits (u.dropWhile isDecU))
-                    else eatSuffix (u.dropWhile isDecU)
-      | 'x' :: u => if (u.takeWhile isHexU).any (fun c => c != '_') then eatSuffix (afterDigits (u.dropWhile isHexU))
-                    else eatSuffix (u.dropWhile isHexU)
-      | c :: _ =>
-        if isDecU c then eatSuffix (afterDigits (t.dropWhile isDecU))
+      | [] => []
+      | c :: u =>
+        if c == 'b' || c == 'o' then afterBase isDecU u
+        else if c == 'x' then afterBase isHexU u
+        else if isDecU c then eatSuffix (afterDigits (t.dropWhile isDecU))
         else if c == '.' || c == 'e' || c == 'E' then eatSuffix (afterDigits t)
         else eatSuffix t
-      | [] => []
     else eatSuffix (afterDigits (t.dropWhile isDecU))
 
 /-- the first token of `s` (a text starting with a digit) -/
